@@ -31,7 +31,7 @@ def plan(tier):
                                  "complex-with-real", "mpdm", "post:canonicalised", "long-chain",
                                  "sector:zero-with-signed-labels", "amplitude:tiny", "amplitude:huge",
                                  "prefactors:tiny-and-different", "distance:equal-prefactors-not-one",
-                                 "normalize:mps_only", "normalize:mps_and_coeff", "normalize:mps_norm_to_coeff"],
+                                 "normalize:mps_only", "normalize:mps_and_coeff", "normalize:mps_norm_to_coeff", "matrix-object"],
             "required_counters": {"oracle": 2000}}
     if tier == "quick":
         base.update({"ncases": 320, "min_nontrivial": 120})
@@ -127,7 +127,66 @@ def documented_real_if_negligible(got, want):
     return complex(got), complex(want)
 
 
+def matrix_case(ctx):
+    """The site-tensor wrapper by itself (every MatrixProduct operation goes through it): arithmetic, reshapes and helpers
+    against plain numpy on the same data; results own their data where the wrapper promises a copy."""
+    from renormalizer.mps import matrix as M
+    rng = ctx.rng
+    ctx.cls("matrix-object")
+    shape = tuple(int(x) for x in rng.integers(1, 5, size=int(rng.choice([3, 4]))))
+    cplx = bool(rng.random() < 0.5)
+
+    def rnd(sh):
+        a = rng.normal(size=sh)
+        return a + 1j * rng.normal(size=sh) if cplx else a
+    a, b = rnd(shape), rnd(shape)
+    A, B = M.Matrix(a.copy()), M.Matrix(b.copy())
+    c = complex(0.3, -1.2) if rng.random() < 0.5 else -0.7
+
+    def same(got, want, what):
+        ctx.count("oracle")
+        g = np.asarray(got.array if isinstance(got, M.Matrix) else got)
+        ok = g.shape == np.asarray(want).shape and np.allclose(g, want, rtol=1e-14, atol=1e-14)
+        ctx.check(ok, "Matrix|" + what + "|differs-from-numpy", shape=list(shape), complex=cplx)
+    same(ctx.lib(lambda: A + B, what="Matrix.__add__"), a + b, "add")
+    same(ctx.lib(lambda: a + B, what="Matrix.__radd__") if False else ctx.lib(lambda: 2.0 + B, what="Matrix.__radd__"), 2.0 + b, "radd")
+    same(ctx.lib(lambda: A * B, what="Matrix.__mul__"), a * b, "mul")
+    same(ctx.lib(lambda: A * c, what="Matrix.__mul__"), a * c, "mul-scalar")
+    same(ctx.lib(lambda: c * A, what="Matrix.__rmul__"), c * a, "rmul-scalar")
+    same(ctx.lib(lambda: A / 3.0, what="Matrix.__truediv__"), a / 3.0, "div")
+    same(ctx.lib(A.abs, what="Matrix.abs"), np.abs(a), "abs")
+    same(ctx.lib(A.conj, what="Matrix.conj"), a.conj(), "conj")
+    same(ctx.lib(A.norm, what="Matrix.norm"), np.linalg.norm(a.ravel()), "norm")
+    same(ctx.lib(A.l_combine, what="Matrix.l_combine"), a.reshape(-1, shape[-1]), "l_combine")
+    same(ctx.lib(A.r_combine, what="Matrix.r_combine"), a.reshape(shape[0], -1), "r_combine")
+    ctx.count("oracle", 4)
+    ctx.check(tuple(A.pdim) == shape[1:-1] and tuple(A.bond_dim) == (shape[0], shape[-1]) and int(A.pdim_prod) == int(np.prod(shape[1:-1])),
+              "Matrix|shape-accessors")
+    ctx.check(bool(M.zeros(shape).nearly_zero()) and not bool(A.nearly_zero()) and not bool(M.Matrix(np.full(shape, 1e-9)).nearly_zero()),
+              "Matrix|nearly_zero")
+    ctx.check(hash(A) == hash(M.Matrix(a.copy())) and hash(A) != hash(B), "Matrix|hash-is-not-a-function-of-the-data")
+    axes = [int(x) for x in rng.permutation(len(shape))]
+    same(ctx.lib(M.moveaxis, A, list(range(len(shape))), axes, what="matrix.moveaxis"), np.moveaxis(a, list(range(len(shape))), axes), "moveaxis")
+    same(ctx.lib(M.tensordot, A, M.Matrix(b.T.copy()) if False else B, ([0], [0]), what="matrix.tensordot"), np.tensordot(a, b, ([0], [0])), "tensordot")
+    same(ctx.lib(M.einsum, "i...,i...->...", A, B, what="matrix.einsum"), np.einsum("i...,i...->...", a, b), "einsum")
+    a2, b2 = rnd((2, 3)), rnd((4, 3))
+    same(ctx.lib(M.vstack, [M.Matrix(a2), M.Matrix(b2)], what="matrix.vstack"), np.vstack([a2, b2]), "vstack")
+    for name, fn, ref in (("zeros", M.zeros, np.zeros), ("ones", M.ones, np.ones)):
+        z = ctx.lib(fn, shape, what="matrix." + name)
+        same(z, ref(shape), name)
+    same(ctx.lib(M.eye, 3, 4, what="matrix.eye"), np.eye(3, 4), "eye")
+    # copies own their data
+    cp = ctx.lib(A.copy, what="Matrix.copy")
+    tc = ctx.lib(A.to_complex, what="Matrix.to_complex")
+    cp.array[...] = 0
+    np.asarray(tc)[...] = 0
+    same(A, a, "copy-or-to_complex-shares-memory-with-the-original")
+    ctx.nontrivial(("matrix", shape, cplx))
+
+
 def run_case(ctx):
+    if ctx.idx % 40 == 13:
+        return matrix_case(ctx)
     from renormalizer.mps import MpDm
     rng = ctx.rng
     gm = gen.random_basis_list(rng, nsite=(2, 6), max_dim=400, qn_mode=rng.choice(["none", "one", "two"], p=[0.25, 0.55, 0.2]),
